@@ -11,6 +11,7 @@ b (added)  'chain' cloud separating greedy matching from mutual nearest neighbou
 c (added)  the limit is tested on the reported mismatch itself (guard on the path); cached requests are keyed by the options (hv.memo)
 
 c-options (round 3)  search radius, delta-v limit and ballistic tolerance of the call reach the backend request (create_problem + to_backend_inputs interpreted)
+c-options (round 4)  crossing direction of the connection configuration (not the section's own field), the configured section normal, and the clouds untrimmed reach the extraction / the backend request
 """
 from __future__ import annotations
 
@@ -51,25 +52,40 @@ def run(tier):
 
 
 def _cd_options_chain(chk):
-    """The limits the backend applies are the ones of the call: the interface's create_problem and to_backend_inputs are
-    interpreted with symbolic options (search radius, delta-v limit, ballistic tolerance); the request handed to the backend
-    must carry exactly those three symbols (real _ConnectionProblem constructor, section extraction abstracted)."""
+    """The limits the backend applies are the ones of the call, the section is the configured one, and the clouds are the
+    sections' own: the interface's create_problem and to_backend_inputs are interpreted with symbolic limits and a concrete
+    pair of clouds (one unstable point far outside the stable cloud's bounding box).  The request handed to the backend
+    must carry the radius / delta-v limit / ballistic tolerance of the options, the crossing direction of the CONNECTION
+    configuration (its section object has a direction field of its own, None by default), and every section point with its
+    state and trajectory index, untrimmed - the backend looks for each paired point's nearest neighbour in its own cloud."""
     INTF = "hiten.algorithms.connections.interfaces"
     mod, cls = ri.find_def(INTF, "_ManifoldConnectionInterface")
-    EPS, DV, BAL = sp.Symbol("EPS2D", positive=True), sp.Symbol("DV_TOL", positive=True), sp.Symbol("BAL_TOL", positive=True)
+    EPS, DV, BAL = R(1, 4), sp.Symbol("DV_TOL", positive=True), sp.Symbol("BAL_TOL", positive=True)
     opts = SymObj(None, {"delta_v_tol": DV, "ballistic_tol": BAL, "eps2d": EPS, "n_workers": 1}, "options")
-    section = SymObj(None, {"section_axis": "x", "section_offset": R(4, 5), "plane_coords": ("y", "z")}, "section")
-    cfg = SymObj(None, {"section": section, "direction": None}, "config")
+    NRM = to_obj_array([sp.Symbol(f"n{i}") for i in range(6)])
+    section = SymObj(None, {"section_axis": "x", "section_offset": R(4, 5), "plane_coords": ("y", "z"), "direction": None, "section_normal": NRM,
+                            "interp_kind": "cubic"}, "section")
+    mapcfgs = []
+    cfg = SymObj(None, {"section": section, "direction": 1}, "config")
     src, tgt = SymObj(None, {}, "source"), SymObj(None, {}, "target")
-    cap = {}
+    PU = to_obj_array([[R(0), R(0)], [R(1), R(0)], [R(5), R(5)]])
+    PS = to_obj_array([[R(1, 10), R(0)], [R(11, 10), R(0)]])
+    XU = to_obj_array([[sp.Symbol(f"U{i}_{k}") for k in range(6)] for i in range(3)])
+    XS = to_obj_array([[sp.Symbol(f"V{i}_{k}") for k in range(6)] for i in range(2)])
+    IU, IS = np.array([10, 11, 12]), np.array([20, 21])
+    cap, dirs = {}, []
 
     def request(ip_, a, k):
         cap.update(k)
         return SymObj(None, dict(k), "request")
 
+    def to_numeric(ip_, a, k):
+        m = a[0] if a else k.get("manifold")
+        dirs.append(k.get("direction", a[2] if len(a) > 2 else None))
+        return (PU.copy(), XU.copy(), IU.copy()) if m is src else (PS.copy(), XS.copy(), IS.copy())
+
     ov = {"ConnectionsBackendRequest": request, "_BackendCall": lambda ip_, a, k: SymObj(None, dict(k), "call"),
-          "SynodicMapConfig": lambda ip_, a, k: SymObj(None, dict(k), "mapcfg"),
-          "to_numeric": lambda ip_, a, k: (sp.Symbol("P"), sp.Symbol("X"), sp.Symbol("I")),
+          "SynodicMapConfig": lambda ip_, a, k: (mapcfgs.append(dict(k)), SymObj(None, dict(k), "mapcfg"))[1], "to_numeric": to_numeric,
           "_apply_direction_correction": lambda ip_, a, k: a[-1] if a else None}
     ip = Interp(overrides=ov)
     intf = SymObj(ClassRef(mod, cls), {"_request_cache": {}, "_cache": {}}, "interface")
@@ -86,6 +102,23 @@ def _cd_options_chain(chk):
         chk.check(got is not None and S(got) == want, "C19.c-options", f"{INTF}::_ManifoldConnectionInterface[{slot}]",
                   f"the request's {what} is {got} instead of the option of the call ({want}): connections are filtered / labelled "
                   f"with a limit the caller did not ask for", sample=f"request.{slot} = options.{want}")
+    pdir = problem.attrs.get("direction") if isinstance(problem, SymObj) else None
+    chk.check(pdir == 1 and dirs == [1, 1], "C19.c-options", f"{INTF}::_ManifoldConnectionInterface[direction]",
+              f"the connection is configured with crossing direction +1 (its section object carries None) but the problem has direction {pdir} and the two sections are "
+              f"extracted with {dirs}: crossings in the other direction enter both clouds", sample="problem.direction = config.direction; both sections extracted with it")
+    okn = len(mapcfgs) == 2 and all(m.get("section_normal") is not None and list(to_obj_array(m["section_normal"])) == list(NRM) and m.get("section_offset") == R(4, 5)
+                                     and m.get("plane_coords") == ("y", "z") for m in mapcfgs)
+    chk.check(okn, "C19.c-options", f"{INTF}::_ManifoldConnectionInterface[section]",
+              f"the connection's section is configured by its normal {list(NRM)}, offset 4/5, plane (y, z); the two sections are extracted with "
+              f"{[{k: v for k, v in m.items() if k != 'direction'} for m in mapcfgs]}: the points paired do not lie on the configured section",
+              sample="both sections extracted on the configured plane (normal, offset, projection)")
+    for slot, want in (("points_u", PU), ("points_s", PS), ("states_u", XU), ("states_s", XS), ("traj_indices_u", IU), ("traj_indices_s", IS)):
+        got = cap.get(slot)
+        ok = got is not None and to_obj_array(got).shape == to_obj_array(want).shape and all(S(x) == S(y) for x, y in zip(to_obj_array(got).ravel(), to_obj_array(want).ravel()))
+        chk.check(ok, "C19.c-options", f"{INTF}::_ManifoldConnectionInterface[{slot}]",
+                  f"the request's {slot} has shape {None if got is None else to_obj_array(got).shape}, the section handed over {to_obj_array(want).shape}: points are dropped or "
+                  f"re-indexed before the backend sees them (it needs each cloud whole for the local segments and reports indices into it)",
+                  sample=f"request.{slot} is the section's array, untrimmed")
 
 
 # ------------------------------------------------------------------------------------------------ a
